@@ -38,6 +38,8 @@ def run(tier):
              'opts': {'max_depth': 0}},
             {'label': 'prefix<=2;roDelete;any', 'harness': HCompletion(max_list=2), 'monitors': mon, 'opts': {'max_depth': 3, 'max_states': 40000}},
         ]
+    parts.append({'label': 'other-envelope', 'harness': HCompletion(envelope='trailing', init_shapes=[('A', 'AB')], layouts=('before',), max_list=1),
+                  'monitors': mon, 'opts': {'max_depth': 2}})
     return runner.graph_check(
         'C07', tier, parts, rule=RULE, vacuity=vacuity,
         assumptions=['collection-mode histories (strict / non-strict with the roDelete at every position) are explored by C09',
